@@ -962,6 +962,21 @@ def default_of(I, t):
         return Adt('Duration', None, 0, [0, 0], ['secs', 'nanos'])
     if t[0] == 'tuple' and not t[1]:
         return UNIT
+    if t[0] == 'ref':
+        inner = t[2]
+        if inner[0] == 'slice':
+            return SliceRef([], 0, 0, 'slice')
+        if inner == ('path', 'str', ()):
+            return SliceRef([], 0, 0, 'str')
+    if t[0] == 'tuple':
+        return Tup([default_of(I, x) for x in t[1]])
+    if t[0] == 'array':
+        try:
+            return Array([default_of(I, t[1]) for _ in range(int(t[2]))])
+        except (TypeError, ValueError):
+            pass
+    if b == 'Cow':
+        return Adt('Cow', 'Borrowed', 0, [SliceRef([], 0, 0, 'str')])
     hit = I.prog.find_impl('Default', 'default', t)
     if hit:
         return I.run(hit[0].func, [], dict(hit[1]))
@@ -1764,3 +1779,32 @@ def m_range_bound(I, c, args, fr):
 @model('RangeInclusive::new')
 def m_range_inclusive_new(I, c, args, fr):
     return Adt('RangeInclusive', None, 0, [args[0], args[1], False], ['start', 'end', 'exhausted'])
+
+@model('bool::then', 'bool::then_some')
+def m_bool_then(I, c, args, fr):
+    if I.ctx.decide(args[0]):
+        return some(I.call_value(args[1], []) if c.name == 'then' else args[1])
+    if c.name == 'then_some':
+        I.drop_value(args[1])
+    return none()
+
+@model('Bound::map')
+def m_bound_map(I, c, args, fr):
+    b = args[0]
+    if b.variant == 'Unbounded':
+        return b
+    return Adt('Bound', b.variant, b.vidx, [I.call_value(args[1], [b.fields[0]])])
+
+@model('Bound::as_ref')
+def m_bound_as_ref(I, c, args, fr):
+    b = deref(args[0])
+    if b.variant == 'Unbounded':
+        return Adt('Bound', 'Unbounded', 2, [])
+    return Adt('Bound', b.variant, b.vidx, [Ref(ListLoc(b.fields, 0))])
+
+@model('Bound::cloned', 'Bound::copied')
+def m_bound_cloned(I, c, args, fr):
+    b = args[0]
+    if b.variant == 'Unbounded':
+        return b
+    return Adt('Bound', b.variant, b.vidx, [copy_value(deref(b.fields[0]))])
